@@ -640,6 +640,9 @@ func (x *Exec) run(fr *Frame, st *State, b *ssa.BasicBlock, pred *ssa.BasicBlock
 	for ; i < len(b.Instrs); i++ {
 		ins := b.Instrs[i]
 		x.curFrame = fr
+		if fr.ctx != nil && fr == fr.ctx.top && len(fr.ctx.contract.LineHooks) > 0 {
+			x.lineHooks(fr, st, ins)
+		}
 		switch v := ins.(type) {
 		case *ssa.DebugRef:
 			continue
@@ -894,6 +897,15 @@ func (x *Exec) havocLoop(fr *Frame, st *State, li *loopInfo, run *loopRun) {
 	sort.Ints(ids)
 	for _, id := range ids {
 		c := st.cells[id]
+		if c.Alloc != nil && li.modAllocs[c.Alloc] && !c.Mat && fr.ctx != nil && fr.ctx.ghost[c.Name] == id && c.Name != "" {
+			// ghost variable: havoc at the sort of its current value
+			if p, ok := c.V.(*Prim); ok {
+				nc := *c
+				nc.V = &Prim{T: x.freshConst(st, "ghost."+c.Name, p.T.Sort)}
+				st.cells[id] = &nc
+				continue
+			}
+		}
 		if c.Alloc != nil && li.modAllocs[c.Alloc] && !c.Mat {
 			if os.Getenv("GOCV_DEBUG") == "2" {
 				fmt.Fprintf(os.Stderr, "loop %d havocs cell %s\n", li.ordinal, c.Name)
@@ -1029,5 +1041,48 @@ func (x *Exec) assumeInvariants(fr *Frame, st *State, li *loopInfo, run *loopRun
 	for _, cl := range x.loopClauses(fr, li) {
 		ev := x.newEval(fr, st, run)
 		st.assume(ev.boolExpr(cl.Expr))
+	}
+}
+
+// lineHooks runs `at line "text" assert|set` clauses when control reaches a new source line that
+// contains the text (before the first instruction of that line executes).
+func (x *Exec) lineHooks(fr *Frame, st *State, ins ssa.Instruction) {
+	if _, isDbg := ins.(*ssa.DebugRef); isDbg {
+		return
+	}
+	pos := ins.Pos()
+	if !pos.IsValid() {
+		return
+	}
+	line := x.prog.fset.Position(pos).Line
+	if st.lastLine == line {
+		return
+	}
+	st.lastLine = line
+	text := x.prog.sourceLine(pos)
+	for _, cl := range fr.ctx.contract.LineHooks {
+		if !strings.Contains(text, cl.AtLine) {
+			continue
+		}
+		var run *loopRun
+		if n := len(st.active); n > 0 && st.active[n-1].frame == fr {
+			run = st.active[n-1]
+		}
+		ev := x.newEval(fr, st, run)
+		ev.hook = true
+		if cl.Kind == "assert" {
+			t := ev.boolExpr(cl.Expr)
+			x.oblige(st, "assert", "line:"+cl.Label, t, cl.Tags, pos)
+			continue
+		}
+		st.quiet++
+		v := ev.eval(cl.Expr)
+		st.quiet--
+		id, ok := fr.ctx.ghost[cl.Label]
+		if !ok {
+			x.abort("at line set %s: unknown ghost variable", cl.Label)
+		}
+		c := st.cells[id]
+		x.store(st, &Loc{Kind: LCell, CellID: id, Root: c.Typ, Typ: c.Typ}, v)
 	}
 }
